@@ -4,7 +4,7 @@ set -u
 PATCH=$1; PROP=$2; TIER=${3:-quick}
 cd /repo || exit 9
 if ! git diff --quiet; then echo "REPO DIRTY"; exit 9; fi
-if ! git apply --3way "$PATCH" 2>/tmp/apply.err && ! git apply "$PATCH" 2>>/tmp/apply.err; then echo "PATCH DOES NOT APPLY"; cat /tmp/apply.err; git checkout -- . ; exit 8; fi
+if ! git apply --3way "$PATCH" 2>/tmp/apply.err && ! git apply "$PATCH" 2>>/tmp/apply.err; then echo "PATCH DOES NOT APPLY"; cat /tmp/apply.err; git reset -q --hard HEAD; exit 8; fi
 cd /verif && bin/check "$PROP" "$TIER" > /tmp/try_mutant.out 2>&1; code=$?
 cd /repo && git reset -q --hard HEAD && git clean -fdq
 grep -c '^VIOLATION' /tmp/try_mutant.out | sed "s/^/violations: /"
